@@ -222,47 +222,41 @@ Proof.
 Qed.
 
 Lemma entry_points_agree (run : string -> sim) cwd1 cwd2 cwd3 pkg1 pkg2 pkg3 inp1 inp2 inp3 p text :
-  wf_abs (parse cwd1) = true -> wf_abs p = true -> run text <> SimAbort ->
+  wf_abs (parse cwd1) = true -> wf_abs p = true ->
   cli run cwd1 pkg1 inp1 (Some (to_str p)) text true = client run cwd2 pkg2 inp2 (to_str p) text
   /\ client run cwd2 pkg2 inp2 (to_str p) text = direct run cwd3 pkg3 [""; inp3; to_str p] text true.
 Proof.
-  intros H W NA. unfold cli, client, direct, client_argv. rewrite cli_files by assumption.
-  rewrite !main_files_absolute_out by assumption. rewrite absolute_fixed by assumption.
-  unfold finish. destruct (run text); [split; reflexivity | split; reflexivity | congruence].
+  intros H W. unfold cli, client, direct, client_argv. rewrite cli_files by assumption.
+  rewrite !main_files_absolute_out by assumption. rewrite absolute_fixed by assumption. split; reflexivity.
 Qed.
 
-Lemma entry_points_abort_counterexample :
+Lemma entry_points_pinned_counterexample :
   exists (run : string -> sim) (text : string), run text = SimAbort /\
-    o_exit (cli run "/w" "/pkg" "in.txt" (Some "/w/o.out") text true) = 0%Z /\
+    o_exit (cli_pinned run "/w" "/pkg" "in.txt" (Some "/w/o.out") text true) = 0%Z /\
     o_exit (client run "/w" "/pkg" "/w/in.txt" "/w/o.out" text) = 1%Z.
 Proof. exists (fun _ => SimAbort), "Reservoir Model, 5". repeat split. Qed.
 
 Lemma exit_status (run : string -> sim) cwd pkg inp out text dir_ok :
-  (run text = SimFail -> o_exit (cli run cwd pkg inp out text dir_ok) <> 0%Z
+  ((forall rep, run text <> SimOk rep) -> o_exit (cli run cwd pkg inp out text dir_ok) <> 0%Z
                          /\ o_files (cli run cwd pkg inp out text dir_ok) = None
                          /\ o_report (cli run cwd pkg inp out text dir_ok) = None)
   /\ (forall rep, run text = SimOk rep -> dir_ok = true ->
         o_exit (cli run cwd pkg inp out text dir_ok) = 0%Z
         /\ o_files (cli run cwd pkg inp out text dir_ok) = Some (main_files cwd pkg (cli_argv cwd inp out))
         /\ o_report (cli run cwd pkg inp out text dir_ok) = Some rep)
-  /\ (run text <> SimAbort -> dir_ok = false -> o_exit (cli run cwd pkg inp out text dir_ok) <> 0%Z
+  /\ (dir_ok = false -> o_exit (cli run cwd pkg inp out text dir_ok) <> 0%Z
                         /\ o_files (cli run cwd pkg inp out text dir_ok) = None).
 Proof.
-  unfold cli, finish. repeat split.
-  - rewrite H. cbn. discriminate.
-  - now rewrite H.
-  - now rewrite H.
-  - rewrite H, H0. reflexivity.
-  - rewrite H, H0. reflexivity.
-  - rewrite H, H0. reflexivity.
-  - destruct (run text); rewrite ?H0; cbn; congruence || discriminate.
-  - destruct (run text); rewrite ?H0; congruence || reflexivity.
+  unfold cli, finish. split; [|split].
+  - intros H. destruct (run text) as [rep| |]; [exfalso; now apply (H rep) | |]; repeat split; cbn; discriminate.
+  - intros rep H D. rewrite H, D. repeat split.
+  - intros D. rewrite D. destruct (run text); split; cbn; try discriminate; reflexivity.
 Qed.
 
-Lemma exit_status_counterexample :
+Lemma exit_status_pinned_counterexample :
   exists (run : string -> sim) (text : string), run text = SimAbort /\
     forall cwd pkg inp out dir_ok,
-      o_exit (cli run cwd pkg inp out text dir_ok) = 0%Z /\ o_files (cli run cwd pkg inp out text dir_ok) = None.
+      o_exit (cli_pinned run cwd pkg inp out text dir_ok) = 0%Z /\ o_files (cli_pinned run cwd pkg inp out text dir_ok) = None.
 Proof. exists (fun _ => SimAbort), "Reservoir Model, 5". split; [reflexivity|]. intros. split; reflexivity. Qed.
 
 (* ------------------------------------------------------------------ the pre-fix JSON path *)
